@@ -341,6 +341,22 @@ def check(work, prop, tier, seed, t0):
 
 def replay(work, prop, path):
     payload = json.load(open(path))
+    if payload.get("stage") not in ("tables", "lr"):
+        # no single-case driver for this stage: re-run the stages the property needs (same
+        # tier/seed defaults) and look for the same case again
+        spec = PROPS[prop]
+        tier = os.environ.get("VERIF_TIER", "quick")
+        seed = int(os.environ.get("VERIF_SEED", "1"))
+        res = {st: stages.get(work, st, tier if tier in ("quick", "thorough") else "quick", seed) for st in spec["stages"]}
+        ctx = stages.Context(res)
+        v = [x for x in spec["viol"](res) if x["id"] == payload.get("id") and x.get("kind") == payload.get("kind")
+             and not known_match(prop, x, ctx)]
+        if v:
+            out("VIOLATION property=%s replay=%s" % (prop, path))
+            run.log(json.dumps(v[0])[:600])
+            return 1
+        out("replay: property %s holds for case %s (%s) in this run" % (prop, payload.get("id"), payload.get("kind")))
+        return 0
     v = stages.replay_case(work, prop, payload)
     if v:
         p2 = run.write_replay(prop, payload)
